@@ -1144,4 +1144,5 @@ func TestRegress(t *testing.T)  { run.Regress(t, spec) }
 func TestReplay(t *testing.T) {
 	run.ReplayOne(t, spec)
 	run.ReplayOne(t, partsSpec)
+	run.ReplayOne(t, concSpec)
 }
